@@ -3,6 +3,9 @@ package simenv
 
 import (
 	"context"
+
+	"verif/harness/model"
+
 	"errors"
 	"fmt"
 	"sort"
@@ -141,7 +144,12 @@ func (st *Store) fmConfig() *fracmanager.Config {
 func (st *Store) Start(timeout time.Duration) string {
 	st.Loaded = false
 	st.FM, st.API, st.BootErr = nil, nil, nil
-	st.Node.Boot()
+	inc := st.Node.Boot()
+	// A process start takes time. Without this the simulated clock may not have moved since the
+	// previous incarnation booted (computation is free in simulated time), and seq-db derives
+	// fraction names (ULID time + time-seeded entropy) from the clock: two incarnations would
+	// generate the same fraction name, which cannot happen on a real clock.
+	st.Sim.SleepSim(time.Duration(20+(inc*13)%40) * time.Millisecond)
 	if err := simos.MkdirAll(st.Node.Dir, 0o777); err != nil {
 		panic(err)
 	}
@@ -190,8 +198,16 @@ func (st *Store) Call(timeout time.Duration, f func()) string {
 	if !st.Node.Alive() {
 		return "dead"
 	}
-	t := st.Sim.GoOn(st.Node, f)
-	return st.Sim.WaitTask(t, st.Node, timeout)
+	completed := false
+	t := st.Sim.GoOn(st.Node, func() {
+		f()
+		completed = true
+	})
+	r := st.Sim.WaitTask(t, st.Node, timeout)
+	if r == "done" && !completed {
+		return "dead" // the task was torn down (crash, fatal, panic) before f returned
+	}
+	return r
 }
 
 // StopGraceful performs WaitIdle + Stop (seals on exit when large enough) and ends the incarnation.
@@ -220,24 +236,8 @@ func (st *Store) PowerLoss(seed uint64, mode string) {
 
 // ---- documents and bulks -----------------------------------------------------------------------
 
-// Tok is one indexed token.
-type Tok struct {
-	F string `json:"f"`
-	V string `json:"v"`
-}
-
-// Doc is a document as the proxy would deliver it to a store.
-type Doc struct {
-	MID  uint64 `json:"mid"`
-	RID  uint64 `json:"rid"`
-	Body string `json:"body"`
-	Toks []Tok  `json:"toks"`
-}
-
-func (d Doc) ID() seq.ID { return seq.ID{MID: seq.MID(d.MID), RID: seq.RID(d.RID)} }
-
 // BuildBulk encodes documents the way proxy/bulk does: `_all_` token first, `_exists_` per field.
-func BuildBulk(docs []Doc) (docsBlock, metasBlock []byte) {
+func BuildBulk(docs []*model.Doc) (docsBlock, metasBlock []byte) {
 	dp := frac.NewDocProvider()
 	for _, d := range docs {
 		toks := make([]seq.Token, 0, 2*len(d.Toks)+1)
@@ -246,14 +246,14 @@ func BuildBulk(docs []Doc) (docsBlock, metasBlock []byte) {
 			toks = append(toks, seq.Token{Field: []byte(t.F), Val: []byte(t.V)})
 			toks = append(toks, seq.Token{Field: []byte(seq.TokenExists), Val: []byte(t.F)})
 		}
-		dp.Append([]byte(d.Body), nil, d.ID(), toks)
+		dp.Append(d.Body(), nil, seq.ID{MID: seq.MID(d.MID), RID: seq.RID(d.RID)}, toks)
 	}
 	db, mb := dp.Provide()
 	return append([]byte(nil), db...), append([]byte(nil), mb...)
 }
 
 // Bulk sends a bulk to the store API on a node task. ack==true iff the handler returned nil.
-func (st *Store) Bulk(timeout time.Duration, docs []Doc) (ack bool, status string, err error) {
+func (st *Store) Bulk(timeout time.Duration, docs []*model.Doc) (ack bool, status string, err error) {
 	db, mb := BuildBulk(docs)
 	req := &pb.BulkRequest{Count: int64(len(docs)), Docs: db, Metas: mb}
 	var rerr error
@@ -265,7 +265,10 @@ func (st *Store) Bulk(timeout time.Duration, docs []Doc) (ack bool, status strin
 		_, rerr = api.Bulk(ctx, req)
 		returned = true
 	})
-	if status == "done" && returned {
+	if status == "done" && !returned {
+		status = "dead" // the handler task was torn down by a crash
+	}
+	if status == "done" {
 		return rerr == nil, status, rerr
 	}
 	return false, status, errors.New("bulk " + status)
@@ -344,9 +347,14 @@ func (st *Store) Search(timeout time.Duration, r SearchReq) (*SearchRes, string,
 	var resp *pb.SearchResponse
 	var rerr error
 	api := st.API
+	returned := false
 	status := st.Call(timeout, func() {
 		resp, rerr = api.Search(context.Background(), r.Proto())
+		returned = true
 	})
+	if status == "done" && !returned {
+		status = "dead"
+	}
 	if status != "done" {
 		return nil, status, errors.New("search " + status)
 	}
@@ -407,9 +415,14 @@ func (st *Store) Fetch(timeout time.Duration, hits []Hit, useHints bool) ([]Fetc
 	fs := &fetchStream{ctx: context.Background()}
 	var rerr error
 	api := st.API
+	returned := false
 	status := st.Call(timeout, func() {
 		rerr = api.Fetch(req, fs)
+		returned = true
 	})
+	if status == "done" && !returned {
+		status = "dead"
+	}
 	if status != "done" {
 		return nil, status, errors.New("fetch " + status)
 	}
